@@ -314,6 +314,33 @@ pub fn run(ctx: &mut Ctx, rep: &mut Report) {
         }
     }
 
+    // ---------------------------------------------------------------- buffer reuse, thin menu for the slow monitor
+    if ctx.only.is_some() && ctx.wants("stripe_reuse_v") {
+        rep.space(
+            "stripe_reuse_v",
+            "stripe_into on a REUSED buffer (default-constructed, previously striped, cloned, grown by configure_wrap(40)) for every ordered pair of lengths in {0,33,1024,1056,2049} x every 32-column striping configuration;              streaming stores are not instrumented by ASan, valgrind sees them",
+        );
+        let lens = [0usize, 33, 1024, 1056, 2049];
+        for cfg in cfgs::U32_SCFGS {
+            for &l1 in &lens {
+                for &l2 in &lens {
+                    let mine = ctx.mine(idx);
+                    idx += 1;
+                    if !mine {
+                        continue;
+                    }
+                    if !crumb(|| wrap("C06", json!({"kind": "stripe_reuse", "cfg": cfg.name(), "l1": l1, "l2": l2}))) {
+                        continue;
+                    }
+                    rep.eval_distinct(true);
+                    if let Err(msg) = catch(|| stripe_reuse_case(cfg, l1, l2)) {
+                        memory_panic(rep, "C06", "stripe_reuse", &msg, || json!({"kind": "stripe_reuse", "cfg": cfg.name(), "l1": l1, "l2": l2}));
+                    }
+                }
+            }
+        }
+    }
+
     // ---------------------------------------------------------------- score (u8) + maxima
     if ctx.wants("score_u8") {
         rep.space("score_u8", "8-bit kernels (generic, sse2, avx2 shuffle, dispatcher arms, scalar) on wide matrices M in {2,5,16,40} x consensus-neighbourhood sequences and lengths around 32/1024");
@@ -512,6 +539,23 @@ impl rand::RngCore for Lcg {
     }
 }
 
+fn stripe_reuse_case(cfg: SCfg, l1: usize, l2: usize) {
+    let s1 = model::to_symbols::<Dna>(&model::digit_pattern(l1, 5, 0));
+    let s2 = model::to_symbols::<Dna>(&model::digit_pattern(l2, 5, 1));
+    // default-constructed buffer (no spare capacity), then reuse
+    let mut buf: StripedSequence<Dna, U32> = StripedSequence::default();
+    cfgs::stripe_into_u32::<Dna>(cfg, &s1, &mut buf);
+    cfgs::stripe_into_u32::<Dna>(cfg, &s2, &mut buf);
+    // a clone has exactly-fitting capacity
+    let mut cl = buf.clone();
+    cfgs::stripe_into_u32::<Dna>(cfg, &s1, &mut cl);
+    // grown beyond the reserved rows, then reused for the other length
+    cl.configure_wrap(40);
+    cfgs::stripe_into_u32::<Dna>(cfg, &s2, &mut cl);
+    cl.configure_wrap(3);
+    std::hint::black_box((buf, cl));
+}
+
 fn sample_case(len: usize) {
     fn go<A: Alphabet>(len: usize) {
         let bg = Background::<A>::uniform();
@@ -556,6 +600,13 @@ pub fn replay(ctx: &mut Ctx, rep: &mut Report, v: &Value) {
         "C19" => c19::replay(ctx, &mut scratch, case),
         _ => {
             rep.space("replay", "replay");
+            if case["kind"].as_str() == Some("stripe_reuse") {
+                let cfg = SCfg::from_name(case["cfg"].as_str().unwrap()).unwrap();
+                let (l1, l2) = (case["l1"].as_u64().unwrap() as usize, case["l2"].as_u64().unwrap() as usize);
+                if let Err(msg) = catch(|| stripe_reuse_case(cfg, l1, l2)) {
+                    memory_panic(rep, "C06", "stripe_reuse", &msg, || case.clone());
+                }
+            }
             if case["kind"].as_str() == Some("sample") {
                 let len = case["len"].as_u64().unwrap() as usize;
                 if let Err(msg) = catch(|| sample_case(len)) {
